@@ -193,7 +193,7 @@ func runC12(r *ev.Recorder) {
 	r.Rule = fmt.Sprintf("LitByte: all 256 bytes (go/types evaluation). LitRune: every valid code point below %U plus plane boundaries and surrogate edges. "+
 		"Lit(string): every byte string of length <= 2 over all 256 byte values (raw and gofmt-formatted), and every string of length <= %d over %d representative units "+
 		"in %d syntactic contexts (raw output scanned with go/scanner against the token skeleton of the same statement with an identifier in the hole; strconv.Unquote == input). "+
-		"Also Files holding 40..5000 distinct string literals followed by repeats of the oldest: every literal token in order keeps its own value. distinct_nontrivial counts distinct inputs that need escaping or a raw/escaped choice (any byte outside printable ASCII, or a quote, backquote or backslash)", runeLimit, maxLen, len(c12Units), len(c12Contexts))
+		"Also strings of 255 .. 1 MiB bytes (all byte values cycling, the units cycling, letters), and Files holding 40..5000 distinct string literals followed by repeats of the oldest: every literal token in order keeps its own value. distinct_nontrivial counts distinct inputs that need escaping or a raw/escaped choice (any byte outside printable ASCII, or a quote, backquote or backslash)", runeLimit, maxLen, len(c12Units), len(c12Contexts))
 	r.Assume = []string{"go/scanner, strconv.Unquote and go/types of the installed toolchain define what a literal's value is",
 		"strings longer than the stated bounds or using other characters than the 26 units are outside the bound"}
 
@@ -278,6 +278,29 @@ func runC12(r *ev.Recorder) {
 		}
 	})
 	r.Count("byte_strings_len_le_2", 1+256+65536)
+
+	// long strings: cycling through all 256 byte values / the units, lengths up to 1 MiB
+	for _, n := range []int{255, 256, 257, 4095, 4096, 65535, 65536, 65537, 1 << 20} {
+		for kind := 0; kind < 3; kind++ {
+			buf := make([]byte, 0, n+8)
+			for i := 0; len(buf) < n; i++ {
+				switch kind {
+				case 0:
+					buf = append(buf, byte(i))
+				case 1:
+					buf = append(buf, c12Units[i%len(c12Units)]...)
+				default:
+					buf = append(buf, 'a'+byte(i%26))
+				}
+			}
+			sv := string(buf[:n])
+			r.Eval(1)
+			r.Distinct(fmt.Sprintf("long-%d-%d", n, kind))
+			if msg := c12String(sv, 1); msg != "" {
+				r.Violate(ev.Violation{Signature: "c12:long-string", What: fmt.Sprintf("Lit(string of %d bytes, kind %d): %s", n, kind, jh.Short(msg, 300)), Case: ev.JSON(c12Case{Kind: "many", Byte: n}), Detail: jh.Short(msg, 2000)})
+			}
+		}
+	}
 
 	// many literals in ONE File (and repeats of earlier ones): every literal token, in order,
 	// must still have exactly its own value
